@@ -130,19 +130,17 @@ def cases(ctx, n):
         atoms = ['a', 'b']
         head = rng.random() < 0.3
         if head:
-            f = gen.formula(rng, atoms, rng.randint(1, 3), gen.HEAD_UN, gen.HEAD_BIN, None, ['true', 'false', 'initial'], nfold=0.4, leaf=0.2)
+            f = gen.formula(rng, atoms, rng.randint(1, 3), gen.HEAD_UN, gen.HEAD_BIN, None, gen.KEYWORDS, nfold=0.4, leaf=0.2)
         else:
             f = gen.late_future(rng, atoms) if rng.random() < 0.25 else gen.formula(rng, atoms, rng.randint(1, 3), nfold=0.4, leaf=0.2)
         ps = positions(f, head)
-        if head:
-            ps = [p for p in ps if not findings.fml_has(p[2], ('final', 'finally')) or not findings.open_classes('C04')]
         if not ps:
             continue
         path, law, g = rng.choice(ps)
         f2 = replace(f, path, g)
         ctxp = gen.context_program(rng, atoms)
         if head:
-            part = rng.choice(['initial', 'always', 'dynamic'])
+            part = rng.choice(['initial', 'always', 'dynamic', 'final'])
             mk = lambda x: ctxp + [{'part': part, 'head': ('tel', x), 'body': []}]
             if findings.in_open_class(mk(f), 'C04') or findings.in_open_class(mk(f2), 'C04'):
                 continue
